@@ -3,6 +3,7 @@ package props
 import (
 	"bytes"
 	"fmt"
+	"hash/fnv"
 	"sort"
 	"sync"
 	"testing"
@@ -343,6 +344,14 @@ func runC19(c *ev.Case, ctx *lib.Ctx, cc *c19Case, merge []c19Chunk, stepwise bo
 	if ok {
 		c.Event("merges", 1)
 		c.Event("messages_delivered", len(sent))
+		// fingerprint of the observed delivery order across streams
+		fp := fnv.New64a()
+		mu.Lock()
+		for _, l := range logged {
+			fp.Write([]byte{byte(l.stream), byte(l.id)})
+		}
+		mu.Unlock()
+		c.Class("delivery-order/%03x", fp.Sum64()%4096)
 	}
 	conn.Close()
 	synctest.Wait()
